@@ -145,7 +145,7 @@ def task_pe(ctx, mesh_shape, cfg, levels, lname, what):
   ctx.encoded(pe.PrimitiveEquations.implicit_terms, pe.PrimitiveEquations.implicit_inverse, pe.PrimitiveEquations.explicit_terms,
               pe.get_temperature_implicit, pe.get_geopotential_diff)
   conf = dict(mesh=list(mesh_shape), grid=grids.cfg_name(cfg), levels=lname, K=K, what=what, modal_shape=list(gm.modal_shape))
-  sp = Space(bits=10 if what == 'explicit' else 14)
+  sp = Space(bits=10 if what in ('explicit', 'step') else 14)
   xs = models.pe_state_vars(sp, c0)
   up = lambda a: pad_to(a, gm.modal_shape); dn = lambda a: crop_to(a, g0.modal_shape)
 
@@ -157,6 +157,12 @@ def task_pe(ctx, mesh_shape, cfg, levels, lname, what):
     if what == 'implicit':
       a = leaves(eqm.implicit_terms(sm)) + leaves(eqm.implicit_inverse(sm, 0.1)) + leaves(eqm.implicit_inverse(sm, 0.1, method='blockwise'))
       b = leaves(eq0.implicit_terms(s0)) + leaves(eq0.implicit_inverse(s0, 0.1)) + leaves(eq0.implicit_inverse(s0, 0.1, method='blockwise'))
+    elif what == 'step':
+      # a whole filtered model step (forward Euler on the explicit part, backward Euler solve, exponential + diffusion step filters)
+      from dinosaur import time_integration as ti
+      def mkstep(eq, g):
+        return ti.step_with_filters(ti.backward_forward_euler(eq, 0.05), [ti.exponential_step_filter(g, 0.05, 0.1, 2, 0.2), ti.horizontal_diffusion_step_filter(g, 0.05, 0.5, 1)])
+      a = leaves(mkstep(eqm, gm)(sm)); b = leaves(mkstep(eq0, g0)(s0))
     else:
       a = leaves(eqm.explicit_terms(sm)); b = leaves(eq0.explicit_terms(s0))
     return tuple(dn(x) for x in a), b
@@ -209,6 +215,10 @@ def make_tasks(tier, seed):
   for m, ln in (((2, 1, 1), 'dy4'), ((2, 2, 1), 'dy2'), ((1, 2, 2), 'dy3')):
     tasks.append(dict(name=f"pe-implicit-{'x'.join(map(str, m))}-{ln}", fn='task_pe', kw=dict(mesh_shape=m, cfg=cfg_small, levels=LS[ln].tolist(), lname=ln, what='implicit')))
   tasks.append(dict(name='pe-explicit-2x2x1-dy2', fn='task_pe', kw=dict(mesh_shape=(2, 2, 1), cfg=cfg_small, levels=LS['dy2'].tolist(), lname='dy2', what='explicit')))
+  tasks.append(dict(name='pe-step-2x2x1-dy2', fn='task_pe', kw=dict(mesh_shape=(2, 2, 1), cfg=cfg_small, levels=LS['dy2'].tolist(), lname='dy2', what='step')))
+  if tier != 'quick':
+    tasks.append(dict(name='pe-step-1x2x2-dy3', fn='task_pe', kw=dict(mesh_shape=(1, 2, 2), cfg=cfg_small, levels=LS['dy3'].tolist(), lname='dy3', what='step')))
+    tasks.append(dict(name='pe-explicit-2x1x2-dy3', fn='task_pe', kw=dict(mesh_shape=(2, 1, 2), cfg=cfg_small, levels=LS['dy3'].tolist(), lname='dy3', what='explicit')))
   tasks.append(dict(name='shapes', fn='task_shapes', kw={}))
   return tasks
 
